@@ -51,6 +51,16 @@ def _gen_filters(rng, dump, stream_ids, tids, procs):
         if f['proc'].isdigit() and rng.chance(0.3):
             # not the decimal text of the pid, only something int() would accept
             f['proc'] = rng.pick(['0' + f['proc'], '+' + f['proc'], ' ' + f['proc'], f['proc'] + ' ', f['proc'][:1] + '_' + f['proc'][1:] if len(f['proc']) > 1 else '00' + f['proc']])
+    if rng.chance(0.12):
+        # entries that are no class / subclass at all: negative, one byte too wide, an event id's spelling - they match nothing
+        if f.get('cls') and classes:
+            c = rng.pick(classes)
+            f['cls'].append(rng.pick([c - 256, -1, -256, c + 256, c << 24, c << 8, -c]))
+        if f.get('sub') and subs:
+            s_ = rng.pick(subs)
+            f['sub'].append(rng.pick([s_ << 16, s_ - 65536, s_ + 65536, -1, -s_]))
+        if 'cls' not in f and 'sub' not in f and classes:
+            f['cls'] = [rng.pick(classes) - 256]
     f['as_tuple'] = rng.chance(0.3)
     return f
 
@@ -109,6 +119,8 @@ def generate(rng, index, tier):
             if b['kind'] == 'logs':
                 procs += [inv[ev['p']] for ev in b['payload']['Events'] if 'p' in ev and ev['p'] in inv]
                 procs += [str(ev['pid']) for ev in b['payload']['Events'] if 'pid' in ev]
+                # the way a line prints a process - name(pid) - is neither its name nor its pid
+                procs += ['%s(%d)' % (inv[ev['p']], ev['pid']) for ev in b['payload']['Events'] if 'p' in ev and ev['p'] in inv and 'pid' in ev]
         r = rng.random()
         if r < 0.3:
             hist.append({'op': 'set', 'filters': _gen_filters(rng, d, sids, tids, procs)})
@@ -343,7 +355,11 @@ def execute(scn):
             if sids:
                 c, s_ = sids[0] >> 24, sids[-1] >> 16
                 trials += [(['-cf', str(c)], {'cls': [c]}), (['-cf', hex(c)], {'cls': [c]}), (['-sf', hex(s_), '-cf', '0x%02x' % c], {'cls': [c], 'sub': [s_]}),
-                           (['-sf', str(s_)], {'sub': [s_]})]
+                           (['-sf', str(s_)], {'sub': [s_]}),
+                           # numbers that are no class / subclass at all (an event id's spelling of one, a value one byte too wide):
+                           # they select nothing, through the command line as through the library
+                           (['-sf', hex(s_ << 16)], {'sub': [s_ << 16]}), (['-cf', hex(c << 24)], {'cls': [c << 24]}),
+                           (['-cf', str(c + 256)], {'cls': [c + 256]}), (['-sf', hex(s_ + 0x10000), '-cf', hex(c << 8)], {'cls': [c << 8], 'sub': [s_ + 0x10000]})]
             for args, f_ in trials:
                 res = CliRunner().invoke(cli, ['kevents', path] + args)
                 lp = tool.pk_mod.PyKdebugParser()
